@@ -215,6 +215,9 @@ def dictEntryOfJson (convK convV : Json → Option Value) (j : Json) : Option (V
     | _, _ => none                                         -- KeyError
   | _ => none
 
+/-- a field named `self`: `hl.Struct.__init__(self, **kwargs)` cannot take it as a keyword -/
+def hasSelfField (fs : List (Str × HType)) : Bool := fs.any fun f => f.1 == cp% "self"
+
 def natsOfJson : List Json → Option (List Nat)
   | [] => some []
   | .num i :: r => if 0 ≤ i then (natsOfJson r).map (i.toNat :: ·) else none
@@ -242,7 +245,9 @@ def fromJson : HType → Json → Option Value
   | .set t, .arr js => (mapOpt (fun j => nullOr j (fromJson t)) js).map .set
   | .dict k v, .arr js =>
     (mapOpt (dictEntryOfJson (fromJson k) (fromJson v)) js).map .dict
-  | .struct fs, .obj kvs => (fromJsonFields fs kvs).map .struct
+  | .struct fs, .obj kvs =>
+    if hasSelfField fs then none            -- `Struct(**{'self': …})`: TypeError, multiple values for argument 'self'
+    else (fromJsonFields fs kvs).map .struct
   | .tuple ts, .arr js => (fromJsonTuple ts js).map .tup
   | .ndarray t _, .obj kvs =>
     if isNumeric t then
@@ -286,7 +291,8 @@ def primNone : HType → Bool
   | _ => false
 
 mutual
-/-- every n-d array has a numeric element type (the only restriction left after commit 1824f18d5) -/
+/-- every n-d array has a numeric element type and no struct has a field named `self` (the restrictions left after commit
+1824f18d5) -/
 def JsonOK : HType → Value → Prop
   | _, .na => True
   | .interval t, .interval s e _ _ => JsonOK t s ∧ JsonOK t e
@@ -294,7 +300,7 @@ def JsonOK : HType → Value → Prop
   | .set t, .set xs => ∀ x ∈ xs, JsonOK t x
   | .dict k v, .dict es =>
     ∀ p ∈ es, JsonOK k p.1 ∧ JsonOK v p.2
-  | .struct fs, .struct xs => JsonOKFields fs xs
+  | .struct fs, .struct xs => hasSelfField fs = false ∧ JsonOKFields fs xs
   | .tuple ts, .tup xs => JsonOKTuple ts xs
   | .ndarray t _, .nd _ _ _ => isNumeric t = true
   | _, _ => True
